@@ -1,10 +1,14 @@
 (* Properties_C11 -- source ranges and error positions.  Statements only.
-   PARTIAL: line/column computation is proved; that every node range is inside the input,
-   nested, ordered and re-readable, and that error offsets are within the input, is decided by
-   the correspondence run + oracles (not yet proved on the reader model). *)
-From Coq Require Import ZArith NArith List Bool.
+   Proved on the reader model, for every input, flag set, option set and fuel: every value of a
+   successfully read tree has a non-empty range inside the input that encloses the ascending,
+   pairwise disjoint ranges of its children (C11_value_ranges + the two lemmas that say what "wf"
+   means in plain terms); every failed read reports 0 <= start <= end <= length
+   (C11_error_offsets); line and column are computed as the property says (C11_position ...).
+   PARTIAL: "re-reading exactly that byte range yields an equal value" is decided by the
+   correspondence run + the re-read oracle, not proved. *)
+From Coq Require Import ZArith NArith List Bool String.
 From Coq.Strings Require Import Byte.
-From Verif Require Import Lanes Common Values Scan Reader ScanProofs PositionProofs.
+From Verif Require Import Lanes Common Values Scan Reader Configs ScanProofs PositionProofs FlagProofs RangeDefs RangeTok RangeInv.
 Import ListNotations.
 Local Open Scope N_scope.
 
@@ -28,12 +32,63 @@ Theorem C11_count_is_lf_count : forall i l off, i <= off ->
   count_lt (lf_positions i l) off = List.length (filter is_lf (firstn (N.to_nat (off - i)) l)).
 Proof. exact count_lt_lf_positions. Qed.
 
+(* ---- ranges of values ---- *)
+(* what well-formedness of ranges (RangeDefs.wf) gives for the children of a list, vector or set, in plain
+   terms: inside the parent, and each later child starts at or after the end of every earlier one *)
+Theorem C11_wf_children_inside : forall n xs, wf n -> (nval n = VList xs \/ nval n = VVector xs \/ nval n = VSet xs) ->
+  forall x, In x xs -> nre x <> 0 -> wf x /\ nrs n <= nrs x /\ nre x <= nre n.
+Proof. exact wf_children_inside. Qed.
+Theorem C11_wf_children_ordered : forall n xs, wf n -> (nval n = VList xs \/ nval n = VVector xs \/ nval n = VSet xs) ->
+  forall l1 x l2 y, xs = l1 ++ x :: l2 -> In y l2 -> nre x <> 0 -> nre y <> 0 -> nre x <= nrs y.
+Proof. exact wf_children_ordered. Qed.
+(* map entries: the same for the sequence k0 v0 k1 v1 ... *)
+Theorem C11_wf_entries : forall n ks vs, wf n -> nval n = VMap ks vs ->
+  (forall x, In x (interleave ks vs) -> nre x <> 0 -> nrs n <= nrs x /\ nre x <= nre n) /\
+  (forall l1 x l2 y, interleave ks vs = l1 ++ x :: l2 -> In y l2 -> nre x <> 0 -> nre y <> 0 -> nre x <= nrs y).
+Proof. exact wf_entries. Qed.
+
+(* the reader model, any handler that satisfies handler_ok, any fuel: the value returned is well-formed,
+   its own range is non-empty and ends inside the input *)
+Theorem C11_value_ranges : forall c o handler xe xh sort m e,
+  handler_ok handler ->
+  (forall b, (dispatch_of c b =? ct_digit c)%Z = true -> Numbers.is_dig b = true) ->
+  (forall b, (dispatch_of c b =? ct_sign c)%Z = true -> Numbers.is_c b "-"%string = true \/ Numbers.is_c b "+"%string = true) ->
+  forall fuel r s n, read_doc c o handler xe xh sort m e fuel = Ret r s -> r_value r = Some n ->
+  wf n /\ nrs n < nre n /\ nre n <= e.
+Proof. exact read_doc_value_ranges. Qed.
+(* as run by the correspondence check: the four generated flag sets, the harness's handlers *)
+Theorem C11_value_ranges_run : forall c o m len r s n, In c all_cfgs ->
+  run_doc c o m len = Ret r s -> r_value r = Some n -> wf n /\ nrs n < nre n /\ nre n <= len.
+Proof. exact run_doc_value_ranges. Qed.
+(* every failed read: start offset <= end offset <= input length *)
+Theorem C11_error_offsets : forall c o m len r s, In c all_cfgs ->
+  run_doc c o m len = Ret r s -> r_err r <> EOk ->
+  fst (fst (r_start r)) <= fst (fst (r_end r)) /\ fst (fst (r_end r)) <= len.
+Proof. exact run_doc_error_range. Qed.
+
+(* the hypotheses are met and the conclusion is not vacuous: a concrete document *)
+Example C11_ranges_example :
+  let doc := list_byte_of_string "[1 {:a (2 3)} #{x}]"%string in
+  match run_doc cfg00 (mk_opts None 0%Z false) (fun k => nth (N.to_nat k) doc "000"%byte) (N.of_nat (List.length doc)) with
+  | Ret r _ => match r_value r with
+               | Some n => (nrs n, nre n, match nval n with VVector xs => map (fun x => (nrs x, nre x)) xs | _ => [] end)
+                           = (0, 19, [(1, 2); (3, 13); (14, 18)])
+               | None => False
+               end
+  | _ => False
+  end.
+Proof. vm_compute. reflexivity. Qed.
+
 Example C11_example :
   let l := ["a"; "010"; "b"; "c"; "010"; "d"]%byte in
   get_position (lf_positions 0 l) 5 = (5, 3, 1) /\ get_position (lf_positions 0 l) 3 = (3, 2, 2)
   /\ get_position (lf_positions 0 l) 1 = (1, 1, 2).
 Proof. vm_compute. repeat split; reflexivity. Qed.
 
+Print Assumptions C11_value_ranges.
+Print Assumptions C11_value_ranges_run.
+Print Assumptions C11_error_offsets.
+Print Assumptions C11_wf_children_ordered.
 Print Assumptions C11_lf_index.
 Print Assumptions C11_position.
 Print Assumptions C11_count_is_lf_count.
